@@ -31,6 +31,7 @@ import (
 	"github.com/smart-core-os/sc-golang/pkg/trait/hailpb"
 	"github.com/smart-core-os/sc-golang/pkg/trait/metadatapb"
 	"github.com/smart-core-os/sc-golang/pkg/trait/onoffpb"
+	"github.com/smart-core-os/sc-golang/pkg/trait/openclosepb"
 	"github.com/smart-core-os/sc-golang/pkg/trait/parentpb"
 	"github.com/smart-core-os/sc-golang/pkg/trait/publicationpb"
 	"github.com/smart-core-os/sc-golang/pkg/trait/vendingpb"
@@ -533,7 +534,22 @@ func TestRaceModels(t *testing.T) {
 		drain(ctx, hm.PullHails(ctx), func(e hailpb.HailsChange) { touch(e.NewValue); touch(e.OldValue) })
 		drain(ctx, pub.PullPublications(ctx), func(e publicationpb.PublicationsChange) { touch(e.NewValue); touch(e.OldValue) })
 		traitNames := []trait.Name{trait.Light, trait.OnOff, trait.Electric, trait.FanSpeed}
+		// one option list, prepared once with room to spare, handed to the write calls of every goroutine: a callee that
+		// adds its own options must not do so in the caller's array
+		shared := append(make([]resource.WriteOption, 0, 4), resource.InterceptAfter(func(old, new proto.Message) { touch(old) }))
+		ocm := openclosepb.NewModel()
+		drain(ctx, ocm.PullPositions(ctx), func(e openclosepb.PullOpenClosePositionsChange) { touch(e.Positions) })
 		ops := []op{
+			func(g, i int) {
+				dir := []traits.OpenClosePosition_Direction{traits.OpenClosePosition_UP, traits.OpenClosePosition_DOWN, traits.OpenClosePosition_LEFT}[g%3]
+				r, _ := ocm.UpdatePosition(&traits.OpenClosePosition{Direction: dir, OpenPercent: float32(i)}, shared...)
+				touch(r)
+			},
+			func(g, i int) {
+				r, _ := ocm.UpdatePositions(&traits.OpenClosePositions{States: []*traits.OpenClosePosition{{Direction: traits.OpenClosePosition_UP, OpenPercent: float32(i)}, {Direction: traits.OpenClosePosition_IN, OpenPercent: 1}}}, shared...)
+				touch(r)
+			},
+			func(g, i int) { r, _ := ocm.GetPositions(); touch(r) },
 			func(g, i int) {
 				if m, err := em.CreateMode(&traits.ElectricMode{Title: "m", Normal: i%4 == 0}); err == nil {
 					modeIDs.Store(m.Id, true)
@@ -548,7 +564,7 @@ func TestRaceModels(t *testing.T) {
 					case 1:
 						_ = em.DeleteMode(k.(string))
 					case 2:
-						_, _ = em.UpdateMode(&traits.ElectricMode{Id: k.(string), Title: "u"})
+						_, _ = em.UpdateMode(&traits.ElectricMode{Id: k.(string), Title: "u"}, shared...)
 					default:
 						_, _ = es.ClearActiveMode(ctx, &traits.ClearActiveModeRequest{})
 					}
@@ -572,7 +588,7 @@ func TestRaceModels(t *testing.T) {
 				}
 			},
 			func(g, i int) {
-				r, _ := mm.MergeMetadata(&traits.Metadata{Name: fmt.Sprint("n", i), Traits: []*traits.TraitMetadata{{Name: string(traitNames[i%4]), More: map[string]string{"k": fmt.Sprint(i)}}}})
+				r, _ := mm.MergeMetadata(&traits.Metadata{Name: fmt.Sprint("n", i), Traits: []*traits.TraitMetadata{{Name: string(traitNames[i%4]), More: map[string]string{"k": fmt.Sprint(i)}}}}, shared...)
 				touch(r)
 			},
 			func(g, i int) { r, _ := mm.GetMetadata(); touch(r) },
@@ -610,7 +626,7 @@ func TestRaceModels(t *testing.T) {
 				}
 			},
 			func(g, i int) {
-				r, _ := pub.UpdatePublication("p", &traits.Publication{Id: "p", Body: []byte(fmt.Sprint(i))}, publicationpb.WithNewVersion())
+				r, _ := pub.UpdatePublication("p", &traits.Publication{Id: "p", Body: []byte(fmt.Sprint(i))}, append(shared[:1:1], publicationpb.WithNewVersion())...)
 				touch(r)
 			},
 			func(g, i int) {
@@ -619,7 +635,7 @@ func TestRaceModels(t *testing.T) {
 				}
 			},
 		}
-		desc := run(t, "Models(electric,parent,metadata,vending,hail,publication)", rapid.IntRange(4, 16).Draw(t, "n"), rapid.IntRange(5, 30).Draw(t, "k"), ops)
+		desc := run(t, "Models(openclose,electric,parent,metadata,vending,hail,publication)", rapid.IntRange(4, 16).Draw(t, "n"), rapid.IntRange(5, 30).Draw(t, "k"), ops)
 		record("Models", desc)
 	})
 }
